@@ -108,8 +108,12 @@ def error_shape(cfg, path, pre=None, ev=None):
         au = {a.name for a in autos_of(cfg.get('autos'))}
     except Exception:
         au = set()
-    if ({'HOLE_DEALING', 'BOARD_DEALING'} & au) and 'CARD_BURNING' not in au:
-        flags.append('dealing-automated-burning-manual')
+    if 'CARD_BURNING' not in au:
+        # which dealing loop can be re-entered: the known re-entrancy defect lives in the hole-dealing loop
+        if 'HOLE_DEALING' in au:
+            flags.append('hole-dealing-automated-burning-manual')
+        elif 'BOARD_DEALING' in au:
+            flags.append('board-dealing-automated-burning-manual')
     if pre is not None:
         unfaced = had_unfaced_fold(pre)
         if not unfaced and ev is not None and ev[0] == 'fold' and pre.actor_index is not None:
